@@ -3,6 +3,7 @@
 package c14
 
 import (
+	"time"
 	"errors"
 	"fmt"
 	"reflect"
@@ -30,7 +31,28 @@ type objV struct{ n int }
 
 func (o objV) MarshalLogObject(enc zapcore.ObjectEncoder) error { enc.AddInt("n", o.n); return nil }
 
-const alphabet = "FSINETVO"
+// errObj is an error that can also marshal itself as an object; strObj a Stringer that can.
+type errObj struct{ n int }
+
+func (o errObj) MarshalLogObject(enc zapcore.ObjectEncoder) error { enc.AddInt("errobj", o.n); return nil }
+func (o errObj) Error() string                                    { return fmt.Sprintf("errObj-%d", o.n) }
+
+type strObj struct{ n int }
+
+func (o strObj) MarshalLogObject(enc zapcore.ObjectEncoder) error { enc.AddInt("strobj", o.n); return nil }
+func (o strObj) String() string                                   { return fmt.Sprintf("strObj-%d", o.n) }
+
+type arrErr []int
+
+func (a arrErr) MarshalLogArray(enc zapcore.ArrayEncoder) error {
+	for _, v := range a {
+		enc.AppendInt(v)
+	}
+	return nil
+}
+func (a arrErr) Error() string { return "arrErr" }
+
+const alphabet = "FSINETVOX"
 
 // sym materialises one argument for symbol c at position i.
 func sym(c byte, i int) interface{} {
@@ -59,6 +81,28 @@ func sym(c byte, i int) interface{} {
 		return true
 	case 'U':
 		return pt{i, -i}
+	case 'X':
+		return errObj{i}
+	case 'Y':
+		return strObj{i}
+	case 'A':
+		return arrErr{i, i + 1}
+	case 'D':
+		return time.Duration(i) * time.Millisecond
+	case 'C':
+		return time.Unix(int64(1000+i), 0).UTC()
+	case 'Z':
+		return []byte{byte(i), 'z'}
+	case 'G':
+		return []error{errors.New("g1"), nil}
+	case 'H':
+		return complex(float64(i), -1)
+	case 'J':
+		return uintptr(i)
+	case 'K':
+		return []string{"a", "b"}
+	case 'L':
+		return strer{"stringer"}
 	}
 	return string(c)
 }
@@ -133,12 +177,21 @@ func identified(calls []rec.Call, v interface{}) bool {
 	if len(want) == 0 {
 		return true // e.g. nil error: nothing to identify
 	}
-	w := want[0]
-	for _, c := range calls {
-		c2 := c
-		c2.Key = w.Key
-		if rec.SameCalls([]rec.Call{w}, []rec.Call{c2}) == "" {
-			return true
+	alts := [][]rec.Call{want[:1]}
+	if err, ok := v.(error); ok {
+		// an error may be identified as zap.Any renders it or, as zap.Error does, by its message
+		if w2, _ := spyFields([]zapcore.Field{zap.NamedError("x", err)}); len(w2) > 0 {
+			alts = append(alts, w2[:1])
+		}
+	}
+	for _, a := range alts {
+		w := a[0]
+		for _, c := range calls {
+			c2 := c
+			c2.Key = w.Key
+			if rec.SameCalls([]rec.Call{w}, []rec.Call{c2}) == "" {
+				return true
+			}
 		}
 	}
 	return false
@@ -188,7 +241,20 @@ func judgeList(r *ev.Run, id string, m method, args []interface{}, shape string)
 	core, logs := observer.New(zapcore.DebugLevel)
 	s := zap.New(core, zap.WithPanicHook(noopHook{}), zap.WithFatalHook(noopHook{})).Sugar()
 	msg := "main-" + id
-	if p := ev.Guard(func() { m.call(s, msg, args) }); p != "" {
+	// every third case really terminates at DPanic/Panic/Fatal (development mode, default panic
+	// action, Fatal ended by a panic hook): whatever must be reported has to be logged before
+	// control is lost
+	realTermination := len(id)%3 == 0
+	if realTermination {
+		s = zap.New(core, zap.Development(), zap.WithFatalHook(zapcore.WriteThenPanic)).Sugar()
+		r.Count("lists_with_real_termination", 1)
+	}
+	p := ev.Guard(func() { m.call(s, msg, args) })
+	if realTermination && m.lvl >= zapcore.DPanicLevel && m.lvl <= zapcore.FatalLevel && p == msg {
+		p = "" // the specified termination, carrying the message
+		r.Count("terminal_entries_really_terminated", 1)
+	}
+	if p != "" {
 		r.Violate(ev.Violation{Case: id, Class: "sugar-panic", Msg: fmt.Sprintf("%s panicked on %v: %s", m.name, renderArgs(args), p), Witness: renderArgs(args)})
 		return
 	}
@@ -301,7 +367,7 @@ func lists(r *ev.Run) {
 	rec(nil)
 	r.Extra("lists_exhaustive_up_to_len", maxLen)
 	// longer lists over a wider alphabet, sampled
-	wide := alphabet + "PMBU"
+	wide := alphabet + "PMBUYADCZGHJKL"
 	k := r.N(30000, 300000)
 	for i := 0; i < k; i++ {
 		id := fmt.Sprintf("c14/long/%d", i)
